@@ -88,6 +88,12 @@ fn simplifications(op: &Op) -> Vec<Op> {
                 out.push(Op::Cycle { a: *a, n: n - 1 });
             }
         }
+        Op::Bulk { a, n, p } => {
+            if *n > 1 {
+                out.push(Op::Bulk { a: *a, n: n / 2, p: *p });
+                out.push(Op::Bulk { a: *a, n: n - 1, p: *p });
+            }
+        }
         Op::Nest { accs, at } => {
             if accs.len() > 1 {
                 let mut a = accs.clone();
